@@ -49,6 +49,25 @@ def nests(rng, depth):
     return "let a = " + o * depth + inner + c * depth + ";\n"
 
 
+WRAP = ["'p %s", "[%s]", "{ 'p %s }", "{ %s }", "<%s>", "%s ?", "%s !", "%s & {}", "%s | num", "%s ~ num", "%s :: <>", "rec x %s",
+        "f %s", "(%s)", "/ { %s }", "/a ? %s", "%s on get -> <>", "get -> %s", "get : %s -> <>", "<status=%s, {}>", "<media=%s, {}>",
+        "<headers=%s, {}>", "%s", "f %s %s", "concat %s /x", "%s.x"]
+
+
+def rec_shapes():
+    """self-referential and mutually referential declarations through every expression form"""
+    out = []
+    pre = "let f x = x;\n"
+    for w in WRAP:
+        out.append(pre + "let a = %s;\nres / on get -> <a>;\n" % (w.replace("%s", "a")))
+        out.append(pre + "let a = %s;\n" % (w.replace("%s", "a")))
+        out.append("let g y = %s;\nlet a = g num;\n" % (w.replace("%s", "g")))
+    for w in WRAP:
+        for v in WRAP[:12]:
+            out.append(pre + "let a = %s;\nlet b = %s;\nres / on get -> <a>;\n" % (w.replace("%s", "b"), v.replace("%s", "a")))
+    return out
+
+
 def in_process(chk, texts, label):
     pr = run_oalv_parallel("parse", [{"text": t} for t in texts], jobs=12)
     cr = run_oalv_parallel("compile", [{"main": "file:///w/main.oal", "files": {"file:///w/main.oal": t}, "want": {}} for t in texts], jobs=12)
@@ -157,13 +176,15 @@ def run(tier):
     in_process(chk, rnd, "unicode")
     in_process(chk, deep, "nests")
     in_process(chk, base + extreme, "corpus-and-extreme-lexemes")
+    shapes = rec_shapes()
+    in_process(chk, shapes, "recursive-declaration-shapes")
     nb = 60 if q else 1500
-    sample = extreme + rng.sample(fam, min(len(fam), nb)) + rng.sample(muts, min(len(muts), nb)) + rng.sample(rnd, min(len(rnd), nb // 2)) + deep[:len(deep) if not q else 8]
+    sample = extreme + rng.sample(shapes, min(len(shapes), nb)) + rng.sample(fam, min(len(fam), nb)) + rng.sample(muts, min(len(muts), nb)) + rng.sample(rnd, min(len(rnd), nb // 2)) + deep[:len(deep) if not q else 8]
     binaries(chk, sample, "sample")
     chk.cov["distinct_nontrivial"] = len(set(fam)) + len(set(muts)) + len(set(rnd)) + len(set(deep))
     chk.cov["rule"] = ("inputs: rendered token sequences of the parser families (extreme lexemes: u64 limits and beyond, empty strings, names at their "
                        "lexical limits), character/token-level mutants of the repository corpus, arbitrary strings over an alphabet with 2-4 byte "
-                       "characters, CR LF, NUL, BOM, nests to depth 200; each goes through tokenizer+parser, the full pipeline and oal_wasm::compile "
+                       "characters, CR LF, NUL, BOM, nests to depth 200, self- and mutually-referential declarations through every expression form; each goes through tokenizer+parser, the full pipeline and oal_wasm::compile "
                        "in process, a sample through the real oal-cli and oal-lsp; all inputs are de-duplicated and all are counted non-trivial "
                        "(each is a distinct text)")
     for lbl, s in (("family", fam), ("mutant", muts), ("unicode", rnd)):
